@@ -41,11 +41,16 @@ KindR3 == ("a" :> "ra" @@ "b" :> "rs" @@ "x" :> "ra")
 BodyR3 == NoBody(ItemsR3)
 ProgR3 == ("c1" :> <<A("a"), S("b"), REL>> @@ "c2" :> <<A("x"), REL>>)
 
-\* ---- R4: concurrent lane width 2: redirected readers carry +2 each ----
-ItemsR4 == {"r1", "b1", "s1"}
-KindR4 == ("r1" :> "ra" @@ "b1" :> "ba" @@ "s1" :> "rs")
+\* ---- R4: concurrent lane width 2: a redirected reader carries +2 to the worker that completes it ----
+ItemsR4 == {"r1", "b1"}
+KindR4 == ("r1" :> "ra" @@ "b1" :> "ba")
 BodyR4 == NoBody(ItemsR4)
-ProgR4 == ("c1" :> <<A("r1"), BA("b1"), REL>> @@ "c2" :> <<S("s1"), REL>>)
+ProgR4 == ("c1" :> <<A("r1"), REL>> @@ "c2" :> <<BA("b1"), REL>>)
+\* thorough (simulated, not exhausted): readers, a barrier and a sync reader
+ItemsR4t == {"r1", "b1", "s1"}
+KindR4t == ("r1" :> "ra" @@ "b1" :> "ba" @@ "s1" :> "rs")
+BodyR4t == NoBody(ItemsR4t)
+ProgR4t == ("c1" :> <<A("r1"), BA("b1"), REL>> @@ "c2" :> <<S("s1"), REL>>)
 
 \* ---- R5: a child queue targets the lane: it keeps the lane alive until it is itself deallocated ----
 ItemsR5 == {"a"}
